@@ -85,6 +85,7 @@ def jobs(tier: str) -> list:
                                  "DEEPLEAVES": tset(["name", "attr2", "attr3", "strattr", "str"])}, domains=("all",))
         # model-only regression domain: the decoder that does not load the members of functions must violate
         out.append(("regress-function-members", "Serde", "Serde_regress_members.cfg", {}, False, True))
+        out.append(("regress-docstring-cleaned-again", "Serde", "Serde_regress_cleandoc.cfg", {}, False, True))
         part("expr3", {"PARTS": '{"expr"}', "MAXSPINE": 3, "FULLDEPTH": 2, "SLOTSET": '{"function.returns"}', "SPINESLOTS": '{"function.returns"}',
                        "DEEPLEAVES": '{"name", "attr2", "strattr"}'}, domains=("all", "clean"))   # (no defect is left in the expr part)
     return out
@@ -162,6 +163,15 @@ def judge(run: Run, case: dict, res: dict, stats: dict):
         die(f"C08: concretiser/harness failure on {cid}:\n{res['error']}")
     if res.get("runtime") is not None and case["kind"] != "root" and res["runtime"] != (case.get("guard", "none") == "none"):
         die(f"C08: concretisation of {cid}: runtime={res['runtime']} but the descriptor's guard is {case.get('guard')}")
+    dref = res.get("docref")
+    if dref:
+        if not dref["loaded_ok"]:
+            die(f"C08: the docstring of {cid} was loaded as {dref['got']!r}, inspect.cleandoc says {dref['want']!r}")
+        mj = case["enc"]["min"]
+        for nm in res["layout"]["names"]:
+            mj = mj["f"]["members"]["f"][nm if nm in mj["f"]["members"]["f"] else case["mname"]]
+        if (mj["f"]["docstring"]["f"]["value"]["v"] == "fix") != dref["fixpoint"]:
+            die(f"C08: Serde!CleanedOnce({case['dtext']}) disagrees with inspect.cleandoc on {dref['want']!r}")
     run.replayed()
     run.evaluated()
     nontrivial = case["part"] != "shape" or any(case[k] not in ("na", "none", "absent", "nopar", False, "x", "pkg", "container")
@@ -209,6 +219,16 @@ def judge(run: Run, case: dict, res: dict, stats: dict):
         return _finish(run, case, drift, stats)
     if not md["ok"]:
         drift.append(f"dec: model predicts {md['exc']}({md['key']}), real code decodes")
+
+    # ---- the full form loaded back ------------------------------------------------------------------
+    df = res.get("decfull")
+    if df is not None:
+        if not df["ok"]:
+            run.violation(sig_of(case, clause="reload-full-form", field=df["key"], exc=df["exc"]),
+                          f"from_json(as_json(full=True)) raised {df['exc']}: {df['msg']} on {cid}", rec)
+            stats["reload-full-raise"] += 1
+        if df["ok"] != case["decfull"]:
+            drift.append(f"reload of the full form: model {case['decfull']} real {df}")
 
     # ---- identical JSON in both forms --------------------------------------------------------------
     for form in ("min", "full"):
@@ -317,6 +337,8 @@ def cli_case(args):
     for pos, (_i, c) in enumerate(cases):
         # fresh package names: this worker may have imported the package of the same descriptor from another directory
         lay = P.layout(c, 1_000_000 + 100 * num + pos)
+        if cc["form"] == "file":       # a single-file top-level module: <pkg>.py instead of <pkg>/__init__.py
+            lay["files"] = {f"{lay['pkg']}.py": text for _rel, text in lay["files"].items()}
         for rel, text in lay["files"].items():
             p = os.path.join(src, rel)
             os.makedirs(os.path.dirname(p), exist_ok=True)
@@ -328,6 +350,8 @@ def cli_case(args):
         requests, search = pkgs, ["-s", src]
     elif cc["form"] == "path":
         requests, search = [os.path.join("src", p) for p in pkgs], []          # relative to the cwd, no search path
+    elif cc["form"] == "file":
+        requests, search = [os.path.join("src", p + ".py") for p in pkgs], []
     else:
         requests, search = [".".join([lay["pkg"], *lay["real_names"]]) for lay in lays], ["-s", src]
     flags = (["-f"] if cc["full"] else []) + {"static": [], "static-resolved": ["-r", "-I"], "inspect": ["-x"]}[cc["agent"]]
@@ -415,6 +439,8 @@ def replay_cases(run: Run, cases: list, stats: dict, base: str, pool, cli_n: int
             origins = ("inspect_nosrc",) if cc["agent"] == "inspect" else ("static",)
             pool_cases = [(i, c) for i, c in numbered if c["origin"] in origins and c["part"] == "shape" and c["cwdrel"] and c["kind"] != "root"
                           and c["enc"]["full"]["t"] != "raise" and not P.patched(c) and c["guard"] != "stub"]
+            if cc["form"] == "file":    # packages that consist of their __init__ module only
+                pool_cases = [(i, c) for i, c in pool_cases if c["kind"] not in ("module", "alias")]
             if len(pool_cases) < 2:
                 continue
             jobs_.append((cc, rnd.sample(pool_cases, 2), base, num))
@@ -477,17 +503,33 @@ def main(tier: str, replay: str | None = None):
     stats["next_idx"] = 1
     t0 = time.time()
     # the command-line clause: SerdeCli.tla enumerates the invocations (request form x full x output x agent)
-    rc = tlc.must(tlc.run("SerdeCli", "SerdeCli.cfg", constants={"AGENTS": '{"static", "static-resolved", "inspect"}', "KEYRULE": "registered", "EMIT": "TRUE"}))
+    cli_inv = "INVARIANT DumpSucceeds\nINVARIANT EachRequestedPackage\nINVARIANT NothingElse"
+    cli_agents = '{"static", "static-resolved", "inspect"}'
+    rc = tlc.must(tlc.run("SerdeCli", "SerdeCli.cfg", constants={"FORMS": '{"name", "path", "dotted"}', "AGENTS": cli_agents, "KEYRULE": "registered",
+                                                                  "EMIT": "TRUE", "INVARIANTS": cli_inv}))
     run.add_tlc(rc)
     if len(rc.cases) != 36:
         die(f"C08: SerdeCli.tla emitted {len(rc.cases)} invocations, expected 36")
-    stats["cli_cases"] = rc.cases
+    # defect domain: a single-file module requested by the path of its file (recorded finding); enumerated without the
+    # invariants (TLC would stop at the first case), the model must predict the failure in every case
+    rf = tlc.must(tlc.run("SerdeCli", "SerdeCli.cfg", constants={"FORMS": '{"file"}', "AGENTS": '{"static"}', "KEYRULE": "registered", "EMIT": "TRUE",
+                                                                  "INVARIANTS": ""}))
+    run.add_tlc(rf)
+    if len(rf.cases) != 4 or not all(c["exc"] == "KeyError" for c in rf.cases):
+        die("C08: SerdeCli.tla no longer exhibits the failure of requests by module file path")
+    stats["cli_cases"] = rc.cases + rf.cases
     if tier == "thorough":
         # model-only regression domain: keeping only the entries named like the request text loses path requests
-        rr = tlc.must(tlc.run("SerdeCli", "SerdeCli.cfg", constants={"AGENTS": '{"static"}', "KEYRULE": "request-prefix", "EMIT": "FALSE"}), allow_violations=True)
+        rr = tlc.must(tlc.run("SerdeCli", "SerdeCli.cfg", constants={"FORMS": '{"name", "path", "dotted"}', "AGENTS": '{"static"}', "KEYRULE": "request-prefix",
+                                                                      "EMIT": "FALSE", "INVARIANTS": cli_inv}), allow_violations=True)
         run.add_tlc(rr)
         if "EachRequestedPackage" not in rr.violated:
             die("C08: SerdeCli.tla with KeyRule = request-prefix no longer violates EachRequestedPackage")
+        rd = tlc.must(tlc.run("SerdeCli", "SerdeCli.cfg", constants={"FORMS": '{"file"}', "AGENTS": '{"static"}', "KEYRULE": "registered", "EMIT": "FALSE",
+                                                                      "INVARIANTS": cli_inv}), allow_violations=True)
+        run.add_tlc(rd)
+        if "DumpSucceeds" not in rd.violated:
+            die("C08: SerdeCli.tla, requests by file: DumpSucceeds is no longer violated")
     ncpu = os.cpu_count() or 4
     nproc = max(2, min(12, ncpu - 2))
     ctx = multiprocessing.get_context("fork")
